@@ -1,5 +1,8 @@
+pub mod campaign;
 pub mod common;
+pub mod monitors;
 pub mod num;
 pub mod props;
+pub mod snap;
 pub mod svm;
 pub mod world;
